@@ -426,9 +426,6 @@ func keepOPTOnly(extra []dns.RR) []dns.RR {
 	return nil
 }
 
-// stripECS returns opts with every EDNS0_SUBNET entry removed.
-// Done in place when the result is the same length (common case:
-// nothing to strip) so the typical OPT write doesn't allocate.
 // onlyEDE keeps the Extended DNS Error options of a list and drops the rest,
 // in place.
 func onlyEDE(opts []dns.EDNS0) []dns.EDNS0 {
@@ -441,6 +438,9 @@ func onlyEDE(opts []dns.EDNS0) []dns.EDNS0 {
 	return keep
 }
 
+// stripECS returns opts with every EDNS0_SUBNET entry removed.
+// Done in place when the result is the same length (common case:
+// nothing to strip) so the typical OPT write doesn't allocate.
 func stripECS(opts []dns.EDNS0) []dns.EDNS0 {
 	keep := opts[:0]
 	for _, o := range opts {
